@@ -573,7 +573,22 @@ func (s *StubLab) Run(req *lab.RawRequest, p *Program) (*lab.RawResponse, *Recor
 	if stale {
 		out, rec, err, _ = s.run(req, p)
 	}
+	// The stub answers a request for which no program is armed with its own marker (599 "stub: no program armed").
+	// If THIS exchange received the marker, a stray request - the first attempt of an earlier exchange on a
+	// keep-alive connection that had gone stale, served late - took the program armed for it: a harness
+	// artefact, never a verdict. The exchange is played again; if it keeps happening the case is inconclusive.
+	for try := 0; try < 3 && strayTookProgram(out); try++ {
+		time.Sleep(time.Duration(20<<try) * time.Millisecond)
+		out, rec, err, _ = s.run(req, p)
+	}
+	if strayTookProgram(out) {
+		return out, rec, fmt.Errorf("harness: the stub had no program armed when the request of this exchange arrived (a stray request consumed it) - 4 attempts")
+	}
 	return out, rec, err
+}
+
+func strayTookProgram(out *lab.RawResponse) bool {
+	return out != nil && out.Status == 599 && strings.Contains(string(out.Body), "stub: no program armed")
 }
 
 func (s *StubLab) run(req *lab.RawRequest, p *Program) (*lab.RawResponse, *Record, error, bool) {
